@@ -62,6 +62,11 @@ def gen(seed):
                              'at': rng.randint(0, 200)})
         if not spec['opt'].get('j'):
             spec['opt']['j'] = rng.randint(2, 3)
+    if rng.random() < 0.15 and not spec['opt'].get('j'):
+        cands = [L['name'] for L in world['layers'] if m.has_hook(L['name'], 'tearDown')]
+        if cands:
+            spec['plan'].append({'site': 'layer.tearDown', 'ident': rng.choice(cands),
+                                 'a': 'raise', 'exc': 'NotImplementedError', 'where': 'parent'})
     spec['plan'] = _ws.order_plan(spec['plan'])
     return spec
 
